@@ -91,11 +91,15 @@ structure Mut where
 
 def Mut.dataVal (m : Mut) : Option Nat := if m.kind = .put then some m.val else none
 
-/-- the two decisions of `percolator/txn.go` that the client protocol's atomicity hinges on -/
+/-- decisions of `percolator/txn.go` / `reader.go` the client model is parameterised by -/
 structure PercCfg where
   /-- `Commit`, lock-missing path: is a *rollback* record refused (true) or is any record with
       the start ts taken as "already committed" (false, as-is)? -/
   commitNoLockRejectsRollback : Bool
+  /-- `Reader.getWriteForRead`: does the scan look past rollback markers (true) or does the
+      newest record ≤ the read version win whatever its kind (false: a rollback marker then hides
+      the older committed value — C17's finding)? -/
+  readSkipsRollback : Bool
   deriving DecidableEq, Repr
 
 /-- `lock != nil && lock.Ts != req.StartVersion` -/
@@ -199,7 +203,7 @@ def checkTxnStatus (start cur : Nat) (ks : KeyState) : KeyState × Status :=
     | some w => if w.kind = .rollback then (ks, .rolledBack) else (ks, .committed w.commitTs)
     | none => (rollbackKey ks start, .rolledBack)
 
-/-- `getWriteForRead`: the record with the greatest commit ts ≤ v -/
+/-- the record with the greatest commit ts ≤ v -/
 def readRec : List WriteRec → Nat → Option WriteRec
   | [], _ => none
   | w :: ws, v =>
@@ -214,10 +218,17 @@ inductive GetRes where
 def GetRes.str : GetRes → String
   | .locked => "locked" | .notFound => "notfound" | .val v => s!"val:{v}"
 
+/-- the records `getWriteForRead` considers -/
+def readable (c : PercCfg) (ws : List WriteRec) : List WriteRec :=
+  if c.readSkipsRollback then ws.filter (fun w => w.kind ≠ .rollback) else ws
+
+/-- `getWriteForRead` -/
+def readVisible (c : PercCfg) (ws : List WriteRec) (v : Nat) : Option WriteRec := readRec (readable c ws) v
+
 /-- `handleGet` + `Reader.GetValue` -/
-def get (ks : KeyState) (v : Nat) : GetRes :=
+def get (c : PercCfg) (ks : KeyState) (v : Nat) : GetRes :=
   if lockBlocks ks v then .locked
-  else match readRec ks.writes v with
+  else match readVisible c ks.writes v with
     | none => .notFound
     | some w =>
       if w.kind = .put then
